@@ -2028,3 +2028,510 @@ Proof.
     + rewrite <- Hp1. exact Hnd.
     + intros n m v Hn Hm. apply Hdis; rewrite Hp1; assumption.
 Qed.
+
+Lemma pend_eq_setsAllA A l : forall s, pend_eq s (setsAllA A l s).
+Proof.
+  induction l as [|n l IH]; intros s; [apply pend_eq_refl|]. cbn [setsAllA foldl].
+  eapply pend_eq_trans; [apply pend_eq_setsT|apply IH].
+Qed.
+
+Lemma rest_eq_setsAllA A l : forall s, rest_eq s (setsAllA A l s).
+Proof.
+  induction l as [|n l IH]; intros s; [apply rest_eq_refl|]. cbn [setsAllA foldl].
+  eapply rest_eq_trans; [apply rest_eq_setsT|apply IH].
+Qed.
+
+Lemma rnp_spec_setsAllA A n l : forall t t1 e,
+  (forall m v, m ∈ l -> v ∈ targets (A m) -> isVarKind (nkind (nd t v)) = true) ->
+  rnp_spec t n = Ok (t1, e) -> rnp_spec (setsAllA A l t) n = Ok (setsAllA A l t1, e).
+Proof.
+  induction l as [|m l IH]; intros t t1 e Hv H; [exact H|]. cbn [setsAllA foldl].
+  apply IH.
+  - intros m' v Hm' Hin. rewrite (pend_proj nkind t _ v (pend_eq_setsT (A m) t)) by auto.
+    apply (Hv m' v); [right|]; assumption.
+  - apply rnp_spec_setsT; [|exact H]. intros v Hin. apply (Hv m v); [left|exact Hin].
+Qed.
+
+Lemma nodeActs_kind p s t n : nkind (nd t n) = nkind (nd s n) -> nodeActs p t n = nodeActs p s n.
+Proof. unfold nodeActs. intros ->. reflexivity. Qed.
+
+(** the invariant of the factorisation *)
+Record sinv (p : plan) (A : nid -> list action) (s : state) (B : list nid) (h : Z) : Prop := {
+  si_ok : ok_state s B h;
+  si_status : status s = 1;
+  si_acts : forall n, n ∈ B -> nodeActs p s n = A n;
+  si_nofault : forall n a, n ∈ B -> a ∈ A n -> is_fault a = false;
+  si_vars : forall n v, n ∈ B -> v ∈ targets (A n) -> isVarKind (nkind (nd s v)) = true
+}.
+
+Lemma sinv_sets p A s B h acts : sinv p A s B h -> sinv p A (setsT acts s) B h.
+Proof.
+  intros [S1 S2 S3 S4 S5]. pose proof (pend_eq_setsT acts s) as PE. pose proof (rest_eq_setsT acts s) as RE.
+  constructor.
+  - eapply ok_state_pend; eassumption.
+  - rewrite status_setsT. exact S2.
+  - intros n Hn. rewrite (nodeActs_kind p s _ n); [apply S3, Hn|]. apply (pend_proj nkind); auto.
+  - exact S4.
+  - intros n v Hn Hv. rewrite (pend_proj nkind s _ v PE) by auto. eapply S5; eassumption.
+Qed.
+
+Lemma sinv_step p A s B h n s1 e : sinv p A s B h -> n ∈ B -> rnp_spec s n = Ok (s1, e) -> sinv p A s1 B h.
+Proof.
+  intros [S1 S2 S3 S4 S5] Hn H.
+  assert (Hk : forall m, nkind (nd s1 m) = nkind (nd s m)).
+  { intros m. apply (rnp_spec_proj nkind s n s1 e m); [|exact H]. intros; apply localF_frame. }
+  constructor.
+  - eapply rnp_spec_ok_state; eassumption.
+  - apply rnp_spec_inv in H as (_ & w & _ & ->). exact S2.
+  - intros m Hm. rewrite (nodeActs_kind p s s1 m (Hk m)). apply S3, Hm.
+  - exact S4.
+  - intros m v Hm Hv. rewrite Hk. eapply S5; eassumption.
+Qed.
+
+Lemma quiet_nil B : quiet [] B.
+Proof. intros n w _. reflexivity. Qed.
+
+(** running a block with the plan = running it without plan after all the sets of the block *)
+Lemma run_factor fuel p A B h l : forall s e al, sinv p A s B h -> (forall x, x ∈ l -> x ∈ B) ->
+  rfold (block_step fuel p) l (s, e, al) = rfold (block_step fuel []) l (setsAllA A l s, e, al).
+Proof.
+  induction l as [|n l IH]; intros s e al SI Hl; [reflexivity|].
+  assert (Hn : n ∈ B) by (apply Hl; left).
+  cbn [rfold setsAllA foldl]. fold (setsAllA A l (setsT (A n) s)).
+  set (t := setsT (A n) s). set (S := setsAllA A l t).
+  pose proof (sinv_sets p A s B h (A n) SI) as SIt. fold t in SIt.
+  destruct SI as [[Bo G] Sst Sacts Snf Svars].
+  destruct (step_total fuel [] B h (quiet_nil B) t e al n (si_ok _ _ _ _ _ SIt) Hn) as (t1 & E1 & R1 & Ok1).
+  (* the left-hand step *)
+  assert (EL : block_step fuel p (s, e, al) n = Ok (t1, e, alw t n al)).
+  { unfold block_step. rewrite (bo_height _ _ _ Bo n Hn).
+    destruct (Z.eqb_spec h unset) as [E|_]; [pose proof (bo_h _ _ _ Bo); unfold unset in E; lia|].
+    rewrite (rnp_shift fuel p s n (bo_has _ _ _ Bo n Hn) (bo_kind _ _ _ Bo n Hn) Sst).
+    2: { intros a Ha. rewrite (Sacts n Hn) in Ha. eapply Snf; eassumption. }
+    rewrite (Sacts n Hn). fold t.
+    unfold block_step in E1. destruct (si_ok _ _ _ _ _ SIt) as [Bot _].
+    rewrite (bo_height _ _ _ Bot n Hn) in E1.
+    destruct (Z.eqb_spec h unset) as [E|_]; [pose proof (bo_h _ _ _ Bo); unfold unset in E; lia|].
+    destruct (recomputeNodeParallel fuel [] t n) as [[t1' e1']| |]; cbn [rbind] in *; try discriminate.
+    injection E1 as -> He Hal. rewrite Hal, He. reflexivity. }
+  rewrite EL. cbn [rbind].
+  (* the right-hand step *)
+  pose proof (pend_eq_setsAllA A l t) as PES. pose proof (rest_eq_setsAllA A l t) as RES. fold S in PES, RES.
+  assert (OkS : ok_state S B h) by (eapply ok_state_pend; [exact PES|exact RES|apply (si_ok _ _ _ _ _ SIt)]).
+  assert (RS : rnp_spec S n = Ok (setsAllA A l t1, None)).
+  { apply rnp_spec_setsAllA; [|exact R1]. intros m v Hm Hv. apply (si_vars _ _ _ _ _ SIt m v); [apply Hl; right; exact Hm|exact Hv]. }
+  destruct (step_total fuel [] B h (quiet_nil B) S e al n OkS Hn) as (S1 & ES & RS' & _).
+  rewrite RS in RS'. injection RS' as <-.
+  rewrite ES. cbn [rbind].
+  assert (alw S n al = alw t n al) as ->.
+  { unfold alw. rewrite (pend_proj nkind t S n PES) by auto. reflexivity. }
+  apply IH.
+  - eapply sinv_step; [exact SIt|exact Hn|exact R1].
+  - intros; apply Hl; right; assumption.
+Qed.
+
+(** ** C04, block level, node functions that set vars *)
+Theorem block_confluence_sets fuel1 fuel2 p s B h o1 o2 :
+  block_ok s B h -> graph_ok s -> sets_ok p s B -> o1 ≡ₚ B -> o2 ≡ₚ B ->
+  exists r1 r2, run_block fuel1 p s o1 = Ok r1 /\ run_block fuel2 p s o2 = Ok r2 /\
+                sim_blk r1 r2 /\ r1.1.2 = None.
+Proof.
+  intros Bo G [So1 So2 So3 So4] H1 H2. unfold run_block, run_block_acc.
+  set (A := nodeActs p s).
+  assert (SI : sinv p A s B h) by (constructor; auto; split; assumption).
+  assert (Hl1 : forall x, x ∈ o1 -> x ∈ B) by (intros x; rewrite H1; auto).
+  assert (Hl2 : forall x, x ∈ o2 -> x ∈ B) by (intros x; rewrite H2; auto).
+  rewrite (run_factor fuel1 p A B h o1 s None [] SI Hl1), (run_factor fuel2 p A B h o2 s None [] SI Hl2).
+  assert (Hnd : NoDup o1) by (rewrite H1; apply (bo_nodup _ _ _ Bo)).
+  rewrite <- (setsAllA_perm A o1 o2 (Permutation_trans H1 (Permutation_sym H2)) Hnd).
+  2: { intros n m v Hn Hm. apply So4; apply Hl1; assumption. }
+  set (S := setsAllA A o1 s).
+  assert (OkS : ok_state S B h).
+  { eapply ok_state_pend; [apply pend_eq_setsAllA|apply rest_eq_setsAllA|split; assumption]. }
+  destruct OkS as [BoS GS].
+  exact (block_confluence fuel1 fuel2 [] S B h o1 o2 BoS GS (quiet_nil B) H1 H2).
+Qed.
+
+(** * J. Footprints and locks *)
+Inductive acc_class (s : state) (n : nid) (a : access) : Prop :=
+| AcOwn f : a_locks a = [] -> a_loc a = LNode n f ->
+            (a_write a = true -> f = FRecomputedAt \/ (cutv s n = false /\ (f = FValue \/ f = FChangedAt))) -> acc_class s n a
+| AcSrc x : a = Rd (LNode x FValue) [] -> x ∈ valsrcs s n -> acc_class s n a
+| AcSelfLocked : a = Rd (LNode n FShape) [RecomputeMu] -> acc_class s n a
+| AcChild c f w : c ∈ children (nd s n) -> f <> FChangedAt -> a = mkAcc (LNode c f) w [RecomputeMu] -> acc_class s n a
+| AcParent c q : c ∈ children (nd s n) -> cutv s n = false -> readsParents (afterLocal s n) c = true ->
+                 q ∈ parents (nd s c) -> a = Rd (LNode q FChangedAt) [RecomputeMu] -> acc_class s n a
+| AcHeap : a = Wr LHeap [RecomputeMu] -> acc_class s n a
+| AcHandlers : a = Wr LHandlers [HandlersMu] -> acc_class s n a
+| AcAlways : a = Wr LAlways [AlwaysMu] -> acc_class s n a.
+
+Lemma fp_classify s n a : a ∈ footprint s n -> acc_class s n a.
+Proof.
+  unfold footprint. rewrite !elem_of_app. intros [H|[H|[H|H]]].
+  - unfold fp_free in H. rewrite !elem_of_app in H. destruct H as [H|[H|[H|H]]].
+    + repeat (apply elem_of_cons in H as [->|H]); [| | |inversion H].
+      * eapply (AcOwn _ _ _ FRecomputedAt); auto.
+      * eapply (AcOwn _ _ _ FShape); [reflexivity|reflexivity|discriminate].
+      * eapply (AcOwn _ _ _ FValue); [reflexivity|reflexivity|discriminate].
+    + destruct (isVarKind _); [|inversion H]. apply elem_of_list_singleton in H as ->.
+      eapply (AcOwn _ _ _ FPending); [reflexivity|reflexivity|discriminate].
+    + apply elem_of_list_fmap in H as (x & -> & Hx). eapply AcSrc; eauto.
+    + destruct (cutv s n) eqn:Ec; [inversion H|].
+      repeat (apply elem_of_cons in H as [->|H]); [| |inversion H].
+      * eapply (AcOwn _ _ _ FValue); auto.
+      * eapply (AcOwn _ _ _ FChangedAt); auto.
+  - unfold fp_locked in H. destruct (cutv s n) eqn:Ec; [inversion H|].
+    apply elem_of_cons in H as [->|H]; [apply AcSelfLocked; reflexivity|].
+    apply elem_of_list_In, in_concat in H as (l & Hl & Ha). apply elem_of_list_In in Hl, Ha.
+    apply elem_of_list_fmap in Hl as (c & -> & Hc).
+    unfold fp_child in Ha. rewrite !elem_of_app in Ha. destruct Ha as [Ha|[Ha|Ha]].
+    + repeat (apply elem_of_cons in Ha as [->|Ha]); [| | |inversion Ha]; eapply AcChild; eauto; discriminate.
+    + destruct (readsParents _ c) eqn:Er; [|inversion Ha].
+      apply elem_of_list_fmap in Ha as (q & -> & Hq). eapply (AcParent _ _ _ c q); eauto.
+      rewrite (afterLocal_proj parents) in Hq by (intros y; apply localF_frame). exact Hq.
+    + destruct (wantPush _ c); [|inversion Ha].
+      repeat (apply elem_of_cons in Ha as [->|Ha]); [| |inversion Ha]; [apply AcHeap; reflexivity|eapply AcChild; eauto; discriminate].
+  - unfold fp_handlers in H. destruct (cutv s n); [inversion H|].
+    repeat (apply elem_of_cons in H as [->|H]); [| |inversion H].
+    + eapply (AcOwn _ _ _ FShape); [reflexivity|reflexivity|discriminate].
+    + apply AcHandlers; reflexivity.
+  - unfold fp_always in H. destruct (isAlways _); [|inversion H].
+    apply elem_of_list_singleton in H as ->. apply AcAlways; reflexivity.
+Qed.
+
+Lemma valsrcs_below s n h x : reads_below s n h -> x ∈ valsrcs s n -> height (nd s x) < h.
+Proof.
+  intros Hr Hx. unfold valsrcs in Hx. apply elem_of_list_omap in Hx as (a & Ha & Hv). eapply Hr; eauto.
+Qed.
+
+Lemma child_above s n c : graph_ok s -> c ∈ children (nd s n) -> height (nd s n) < height (nd s c).
+Proof. intros G Hc. apply (go_heights _ G), (go_edges _ G), Hc. Qed.
+
+Lemma covered_same l a b : a_locks a = [l] -> a_locks b = [l] -> covered a b.
+Proof. intros Ha Hb. exists l. rewrite Ha, Hb. split; left. Qed.
+
+(** one direction of the case analysis *)
+Lemma lockset_half s n m h a b :
+  graph_ok s -> height (nd s n) = h -> height (nd s m) = h -> n <> m ->
+  reads_below s n h -> reads_below s m h ->
+  acc_class s n a -> acc_class s m b -> a_loc a = a_loc b -> a_write a = true ->
+  covered a b \/ stale_pair a b n.
+Proof.
+  intros G Hhn Hhm Hne Hrn Hrm Ca Cb Hloc Hw.
+  destruct Ca as [f La Ea Wa|x -> Hx| -> |c f w Hc Hf ->|c q Hc _ _ Hq ->| -> | -> | -> ]; cbn in Hw; try discriminate.
+  - (* a: a lock-free write of n's own field *)
+    destruct Cb as [g Lb Eb Wb|y -> Hy| -> |d g w' Hd Hg ->|d q Hd Hcm Hrp Hq ->| -> | -> | -> ]; cbn in Hloc; rewrite Ea in Hloc; try discriminate.
+    + rewrite Eb in Hloc. injection Hloc as ? ?. congruence.
+    + injection Hloc as Ey Ef. subst y. pose proof (valsrcs_below s m h n Hrm Hy). lia.
+    + injection Hloc as ? ?. congruence.
+    + injection Hloc as Ey Ef. subst d. pose proof (child_above s m n G Hd). lia.
+    + injection Hloc as Ey Ef. subst q f. right. split; [|reflexivity].
+      destruct a as [l w' ls]; cbn in *. subst. reflexivity.
+  - (* a: a locked access to a child of n *)
+    left. destruct Cb as [g Lb Eb Wb|y -> Hy| -> |d g w' Hd Hg ->|d q Hd Hcm Hrp Hq ->| -> | -> | -> ]; cbn in Hloc; try discriminate;
+      try (eapply covered_same; reflexivity).
+    + (* b lock-free on m's own field: the child of n would be m *)
+      rewrite Eb in Hloc. injection Hloc as Ey Ef. subst c. pose proof (child_above s n m G Hc). lia.
+    + injection Hloc as Ey Ef. subst c. pose proof (child_above s n y G Hc). pose proof (valsrcs_below s m h y Hrm Hy). lia.
+  - (* a: the heap *)
+    left. destruct Cb as [g Lb Eb Wb|y -> Hy| -> |d g w' Hd Hg ->|d q Hd Hcm Hrp Hq ->| -> | -> | -> ]; cbn in Hloc;
+      try discriminate; try (rewrite Eb in Hloc; discriminate). eapply covered_same; reflexivity.
+  - left. destruct Cb as [g Lb Eb Wb|y -> Hy| -> |d g w' Hd Hg ->|d q Hd Hcm Hrp Hq ->| -> | -> | -> ]; cbn in Hloc;
+      try discriminate; try (rewrite Eb in Hloc; discriminate). eapply covered_same; reflexivity.
+  - left. destruct Cb as [g Lb Eb Wb|y -> Hy| -> |d g w' Hd Hg ->|d q Hd Hcm Hrp Hq ->| -> | -> | -> ]; cbn in Hloc;
+      try discriminate; try (rewrite Eb in Hloc; discriminate). eapply covered_same; reflexivity.
+Qed.
+
+(** ** C04, lock sets: two nodes of one block (neither a bind lhs-change), success paths *)
+Theorem lockset s B h n m a b :
+  block_ok s B h -> graph_ok s -> n ∈ B -> m ∈ B -> n <> m ->
+  a ∈ footprint s n -> b ∈ footprint s m -> conflict a b ->
+  covered a b \/ stale_pair a b n \/ stale_pair b a m.
+Proof.
+  intros Bo G Hn Hm Hne Ha Hb [Hloc Hw].
+  pose proof (fp_classify _ _ _ Ha) as Ca. pose proof (fp_classify _ _ _ Hb) as Cb.
+  apply orb_true_iff in Hw as [Hw|Hw].
+  - destruct (lockset_half s n m h a b G (bo_height _ _ _ Bo n Hn) (bo_height _ _ _ Bo m Hm) Hne
+               (bo_reads _ _ _ Bo n Hn) (bo_reads _ _ _ Bo m Hm) Ca Cb Hloc Hw) as [?|?]; auto.
+  - destruct (lockset_half s m n h b a G (bo_height _ _ _ Bo m Hm) (bo_height _ _ _ Bo n Hn) (not_eq_sym Hne)
+               (bo_reads _ _ _ Bo m Hm) (bo_reads _ _ _ Bo n Hn) Cb Ca (eq_sym Hloc) Hw) as [[l [H1 H2]]|?]; auto.
+    left. exists l. auto.
+Qed.
+
+(** when the uncovered pair can arise at all: the common child is a bind main node, or it has
+    already been recomputed in the running pass *)
+Lemma readsParents_cases t c : readsParents t c = true ->
+  (exists b, nkind (nd t c) = KBindMain b) \/ stabNum t <= recomputedAt (nd t c).
+Proof.
+  unfold readsParents. rewrite !andb_true_iff. intros [[_ H1] H2].
+  destruct (nkind (nd t c)) eqn:Ek; try discriminate; cbn in H1; try (right; lia).
+  left. eauto.
+Qed.
+
+Lemma no_stale_read s B h m x b :
+  block_ok s B h -> graph_ok s -> m ∈ B ->
+  (forall c, c ∈ children (nd s m) ->
+     recomputedAt (nd s c) < stabNum s /\ forall bb, nkind (nd s c) <> KBindMain bb) ->
+  b ∈ footprint s m -> b <> Rd (LNode x FChangedAt) [RecomputeMu].
+Proof.
+  intros Bo G Hm Hfresh Hb ->. apply fp_classify in Hb.
+  destruct Hb as [f La Ea Wa|y E Hy| E |c f w Hc Hf E|c q Hc Hcut Hrp Hq E| E | E | E ]; try discriminate.
+  - injection E as _ <-. congruence.
+  - destruct (Hfresh c Hc) as [F1 F2].
+    assert (Hcm : c <> m) by (intros ->; pose proof (child_above s m m G Hc); lia).
+    destruct (readsParents_cases _ _ Hrp) as [[bb Hk]|Hge]; rewrite nd_afterLocal_ne in * by exact Hcm.
+    + exact (F2 bb Hk).
+    + change (stabNum (afterLocal s m)) with (stabNum s) in Hge. lia.
+Qed.
+
+(** with fresh children (not recomputed yet in this pass, no bind main) every conflict is covered *)
+Theorem lockset_fresh s B h n m a b :
+  block_ok s B h -> graph_ok s -> n ∈ B -> m ∈ B -> n <> m ->
+  (forall x c, x ∈ B -> c ∈ children (nd s x) ->
+     recomputedAt (nd s c) < stabNum s /\ forall bb, nkind (nd s c) <> KBindMain bb) ->
+  a ∈ footprint s n -> b ∈ footprint s m -> conflict a b -> covered a b.
+Proof.
+  intros Bo G Hn Hm Hne Hfresh Ha Hb Hc.
+  destruct (lockset s B h n m a b Bo G Hn Hm Hne Ha Hb Hc) as [?|[[_ E]|[_ E]]]; [assumption| |].
+  - exfalso. eapply (no_stale_read s B h m n b); eauto.
+  - exfalso. eapply (no_stale_read s B h n m a); eauto.
+Qed.
+
+(** ** pairs the locks of graph.go do NOT cover (candidates for the race detector) *)
+(** 1. a node whose function fails re-queues itself under the heap's own mutex while a sibling
+       queues a child under recomputeMu: two writers of the recompute heap, no common lock *)
+Theorem lockset_refuted_heap s n m : pushlist s m <> [] ->
+  exists a b, a ∈ fp_fail n /\ b ∈ footprint s m /\ conflict a b /\ ~ covered a b.
+Proof.
+  intros Hp. exists (Wr LHeap [HeapMu]), (Wr LHeap [RecomputeMu]).
+  split; [unfold fp_fail; do 2 right; left|]. split; [|split].
+  - unfold footprint, fp_locked, pushlist in *. apply elem_of_app; right. apply elem_of_app; left.
+    destruct (cutv s m); [congruence|]. right.
+    destruct (filter _ _) as [|c l] eqn:Ef; [congruence|].
+    assert (Hc : c ∈ filter (fun c => wantPush (afterLocal s m) c = true) (children (nd s m))) by (rewrite Ef; left).
+    apply elem_of_list_filter in Hc as [Hw Hc].
+    apply elem_of_list_In, in_concat. exists (fp_child (afterLocal s m) c).
+    split; [apply in_map, elem_of_list_In, Hc|]. apply elem_of_list_In.
+    unfold fp_child. rewrite Hw. rewrite !elem_of_app. right; right. left.
+  - split; reflexivity.
+  - intros (l & H1 & H2). cbn in H1, H2. apply elem_of_list_singleton in H1, H2. congruence.
+Qed.
+
+(** 2. a node function calling Set on a var that is being recomputed in the same block: the var's
+       Stabilize reads setDuringStabilization while Set writes it, both without a lock *)
+Theorem lockset_refuted_pending s v : isVarKind (nkind (nd s v)) = true ->
+  exists a b, a ∈ fp_set v /\ b ∈ footprint s v /\ conflict a b /\ ~ covered a b.
+Proof.
+  intros Hk. exists (Wr (LNode v FPending) []), (Rd (LNode v FPending) []).
+  split; [unfold fp_set; do 3 right; left|]. split; [|split].
+  - unfold footprint, fp_free. rewrite Hk. rewrite !elem_of_app. left. right. left. left.
+  - split; reflexivity.
+  - intros (l & H1 & _). inversion H1.
+Qed.
+
+(** ** the footprints are sound: what is not in the write footprint is not changed *)
+Lemma add_hin_other w c h w' x : Heap.add w c h = Ok w' -> x <> c -> Heap.hinOf w' x = Heap.hinOf w x.
+Proof.
+  unfold Heap.add. destruct (h <? 0); [discriminate|]. destruct (if Heap.cnt w =? 0 then _ else _) as [mn mx].
+  intros [= <-] Hne. unfold Heap.hinOf; cbn. rewrite lookup_insert_ne by congruence. reflexivity.
+Qed.
+
+Lemma addAll_hin_other hf l : forall w w' x, addAll hf l w = Ok w' -> x ∉ l -> Heap.hinOf w' x = Heap.hinOf w x.
+Proof.
+  induction l as [|c l IH]; intros w w' x H Hx; [injection H as <-; reflexivity|].
+  rewrite addAll_cons in H. apply rbind_ok in H as (w1 & H1 & H2).
+  rewrite (IH _ _ x H2) by (intros ?; apply Hx; right; assumption).
+  unfold Heap.addIfNotPresent in H1. destruct (Heap.mem w c); [injection H1 as <-; reflexivity|].
+  apply (add_hin_other _ _ _ _ x H1). intros ->. apply Hx. left.
+Qed.
+
+Lemma pushlist_written s n c : c ∈ pushlist s n ->
+  Wr LHeap [RecomputeMu] ∈ footprint s n /\ Wr (LNode c FHeapHeight) [RecomputeMu] ∈ footprint s n.
+Proof.
+  intros Hc. unfold pushlist in Hc. unfold footprint, fp_locked.
+  destruct (cutv s n); [inversion Hc|]. apply elem_of_list_filter in Hc as [Hw Hc].
+  assert (Hsub : forall a, a ∈ fp_child (afterLocal s n) c ->
+            a ∈ fp_free s n ++ (Rd (LNode n FShape) [RecomputeMu] :: concat (map (fp_child (afterLocal s n)) (children (nd s n))))
+                  ++ fp_handlers s n ++ fp_always s n).
+  { intros a Ha. apply elem_of_app; right. apply elem_of_app; left. right.
+    apply elem_of_list_In, in_concat. exists (fp_child (afterLocal s n) c).
+    split; [apply in_map, elem_of_list_In, Hc|apply elem_of_list_In, Ha]. }
+  split; apply Hsub; unfold fp_child; rewrite Hw, !elem_of_app; right; right; [left|right; left].
+Qed.
+
+Lemma rnp_spec_nd_cases s n s1 e x : rnp_spec s n = Ok (s1, e) ->
+  nd s1 x = nd s x \/ (x = n /\ nd s1 n = localF s n (nd s n)).
+Proof.
+  intros H. rewrite (rnp_spec_nd s n s1 e x H), nd_afterLocal.
+  destruct (decide (x = n)) as [->|Hne]; [|left; reflexivity].
+  rewrite (rnp_spec_nd s n s1 e n H), nd_afterLocal, decide_True by reflexivity.
+  unfold nd. destruct (nodes s !! n); cbn; [right; auto|left; reflexivity].
+Qed.
+
+Theorem fp_write_sound s n s1 e : rnp_spec s n = Ok (s1, e) ->
+  (forall x f, not_written (footprint s n) (LNode x f) -> field_same f s s1 x) /\
+  (not_written (footprint s n) LHeap -> heap s1 = heap s) /\
+  (not_written (footprint s n) LHandlers -> handlers s1 = handlers s) /\
+  binds s1 = binds s /\ next s1 = next s /\ reg s1 = reg s /\ obs s1 = obs s /\ adj s1 = adj s /\
+  invq s1 = invq s /\ stabNum s1 = stabNum s /\ status s1 = status s /\ numNodes s1 = numNodes s /\
+  setDuring s1 = setDuring s /\ setRemoved s1 = setRemoved s /\ maxHeight s1 = maxHeight s.
+Proof.
+  intros H. pose proof (rnp_spec_inv _ _ _ _ H) as (_ & w & Hw & Es1).
+  assert (Hfree : forall a, a ∈ fp_free s n -> a ∈ footprint s n) by (intros; apply elem_of_app; auto).
+  split; [|split; [|split]].
+  - intros x f NW. destruct f; cbn [field_same].
+    + destruct (rnp_spec_nd_cases s n s1 e x H) as [->|[-> E]]; [reflexivity|].
+      exfalso. apply (NW (Wr (LNode n FRecomputedAt) [])); [|reflexivity|reflexivity].
+      apply Hfree. unfold fp_free. left.
+    + destruct (rnp_spec_nd_cases s n s1 e x H) as [->|[-> E]]; [reflexivity|]. rewrite E.
+      unfold localF. destruct (cutv s n) eqn:Ec; [reflexivity|].
+      exfalso. apply (NW (Wr (LNode n FChangedAt) [])); [|reflexivity|reflexivity].
+      apply Hfree. unfold fp_free. rewrite Ec, !elem_of_app. do 3 right. right. left.
+    + destruct (rnp_spec_nd_cases s n s1 e x H) as [->|[-> E]]; [reflexivity|]. rewrite E.
+      unfold localF. destruct (cutv s n) eqn:Ec; [reflexivity|].
+      exfalso. apply (NW (Wr (LNode n FValue) [])); [|reflexivity|reflexivity].
+      apply Hfree. unfold fp_free. rewrite Ec, !elem_of_app. do 3 right. left.
+    + destruct (rnp_spec_nd_cases s n s1 e x H) as [->|[-> E]]; [reflexivity|]. rewrite E. apply localF_frame.
+    + rewrite Es1. cbn [heap set]. change (Heap.hinOf w x = Heap.hinOf (heap s) x).
+      apply (addAll_hin_other _ _ _ _ x Hw). intros Hx.
+      destruct (pushlist_written s n x Hx) as [_ Hin]. exact (NW _ Hin eq_refl eq_refl).
+    + destruct (rnp_spec_nd_cases s n s1 e x H) as [->|[-> E]]; [unfold shape_eq; repeat split; reflexivity|].
+      rewrite E. pose proof (localF_frame s n (nd s n)) as F. unfold shape_eq. intuition.
+  - intros NW. rewrite Es1. cbn. destruct (pushlist s n) as [|c l] eqn:Ep.
+    + cbn in Hw. congruence.
+    + exfalso. destruct (pushlist_written s n c) as [Hin _]; [rewrite Ep; left|]. exact (NW _ Hin eq_refl eq_refl).
+  - intros NW. rewrite Es1. cbn. unfold newHandlers, hkeys. destruct (cutv s n) eqn:Ec; [reflexivity|].
+    exfalso. apply (NW (Wr LHandlers [HandlersMu])); [|reflexivity|reflexivity].
+    unfold footprint, fp_handlers. rewrite Ec, !elem_of_app. right; right; left. right; left.
+  - rewrite Es1. repeat split; reflexivity.
+Qed.
+
+(** ** ... and what is not in the read footprint does not matter *)
+Section reads_sound.
+  Context (s t : state) (n : nid).
+  Context (Hnd : nd t n = nd s n) (Hst : stabNum t = stabNum s) (Hb : binds t = binds s) (Hshape : same_shape s t).
+  Context (Hsrc : forall x, x ∈ valsrcs s n -> value (nd t x) = value (nd s x)).
+
+  Lemma rs_value a : a ∈ reads s n -> valueOf t a = valueOf s a.
+  Proof.
+    intros Ha. apply valueOf_shape; [exact Hshape|]. intros x Hx. apply Hsrc.
+    unfold valsrcs. apply elem_of_list_omap. eauto.
+  Qed.
+
+  Lemma rs_cutv : cutv t n = cutv s n.
+  Proof.
+    unfold cutv. rewrite Hnd. destruct (nkind (nd s n)) eqn:Ek; try reflexivity.
+    rewrite rs_value; [reflexivity|]. unfold reads. rewrite Ek. left.
+  Qed.
+
+  Lemma rs_newval : newval t n = newval s n.
+  Proof.
+    unfold newval. rewrite Hnd. destruct (nkind (nd s n)) eqn:Ek; try reflexivity.
+    - rewrite rs_value; [reflexivity|]. unfold reads. rewrite Ek. left.
+    - rewrite !rs_value; [reflexivity| |]; unfold reads; rewrite Ek; [right; left|left].
+    - f_equal. f_equal. apply map_ext_in. intros a Ha. apply rs_value. unfold reads. rewrite Ek.
+      apply elem_of_list_In. exact Ha.
+    - rewrite rs_value; [reflexivity|]. unfold reads. rewrite Ek. left.
+    - rewrite (bd_ext t s _ Hb). destruct (b_rhs (bd s b)) as [r|] eqn:Er; [|reflexivity].
+      rewrite rs_value; [reflexivity|]. unfold reads. rewrite Ek, Er. left.
+  Qed.
+
+  Lemma rs_localEvs : localEvs t n = localEvs s n.
+  Proof.
+    unfold localEvs. rewrite Hnd. destruct (nkind (nd s n)) eqn:Ek; try reflexivity.
+    - rewrite rs_value; [reflexivity|]. unfold reads. rewrite Ek. left.
+    - rewrite !rs_value; [reflexivity| |]; unfold reads; rewrite Ek; [right; left|left].
+    - assert (map (valueOf t) (decl (nd s n)) = map (valueOf s) (decl (nd s n))) as ->; [|reflexivity].
+      apply map_ext_in. intros a Ha. apply rs_value. unfold reads. rewrite Ek. apply elem_of_list_In. exact Ha.
+    - rewrite rs_value; [reflexivity|]. unfold reads. rewrite Ek. left.
+  Qed.
+
+  Lemma rs_localF y : localF t n y = localF s n y.
+  Proof. unfold localF. rewrite rs_cutv, rs_newval, Hst. reflexivity. Qed.
+End reads_sound.
+
+(** the lock-free section of [n] computes the same thing in any two states that agree on [n]'s own
+    record and on the [value] of the nodes in its read footprint *)
+Theorem fp_read_sound_free s t n :
+  nd t n = nd s n -> stabNum t = stabNum s -> binds t = binds s -> same_shape s t ->
+  (forall x, Rd (LNode x FValue) [] ∈ fp_free s n -> value (nd t x) = value (nd s x)) ->
+  cutv t n = cutv s n /\ newval t n = newval s n /\ localEvs t n = localEvs s n /\
+  forall y, localF t n y = localF s n y.
+Proof.
+  intros Hnd Hst Hb Hsh Hv.
+  assert (Hsrc : forall x, x ∈ valsrcs s n -> value (nd t x) = value (nd s x)).
+  { intros x Hx. apply Hv. unfold fp_free. rewrite !elem_of_app. right; right; left.
+    apply elem_of_list_fmap. eauto. }
+  split; [eapply rs_cutv; eauto|]. split; [eapply rs_newval; eauto|]. split; [eapply rs_localEvs; eauto|].
+  intros y. eapply rs_localF; eauto.
+Qed.
+
+(** the children scan's verdict on [c] depends on [c]'s own record, the pass number and -- only
+    when [readsParents] -- the changedAt of [c]'s inputs *)
+Theorem fp_read_sound_child t t' c :
+  nd t' c = nd t c -> stabNum t' = stabNum t ->
+  (readsParents t c = true -> forall q, q ∈ parents (nd t c) -> changedAt (nd t' q) = changedAt (nd t q)) ->
+  wantPush t' c = wantPush t c.
+Proof.
+  intros Hnd Hst Hp. unfold wantPush, isStale, readsParents in *. rewrite Hnd, Hst.
+  destruct (isNecessary (nd t c)); cbn [negb andb] in *; [|reflexivity].
+  destruct (valid (nd t c)); cbn [negb andb] in *; [|reflexivity].
+  destruct (negb (hasStaler (nkind (nd t c))) && (recomputedAt (nd t c) <? stabNum t)); cbn [negb andb] in *; [reflexivity|].
+  destruct (nkind (nd t c)); try reflexivity.
+  all: destruct (recomputedAt (nd t c) =? 0); cbn [negb orb] in *; [reflexivity|].
+  all: unfold staleWrtParents; specialize (Hp eq_refl).
+  all: induction (parents (nd t c)) as [|q l IH]; [reflexivity|]; cbn [existsb].
+  all: rewrite (Hp q) by left; rewrite IH by (intros; apply Hp; right; assumption); reflexivity.
+Qed.
+
+(** * K. The bind case *)
+(** whatever the scheduler, the bind lhs-change nodes of a block run first, one at a time, in queue
+    order; the scheduler only orders the other nodes of the block, none of which is a lhs-change *)
+Theorem bind_prefix_sequential sched fuel p s al :
+  parLoopS sched (S fuel) p s al =
+  if Heap.cnt (heap s) <=? 0 then Ok (s, None, al) else
+  let '(block, w) := Heap.takeMinBlock (heap s) in
+  let s := s <| heap := w |> in
+  r0 <-! run_block_acc fuel p s al (lhs_part s block);
+  '(s', e, al') <-! rfold (block_step fuel p) (sched s (rest_part s block)) r0;
+  match e with
+  | Some _ => Ok (s', e, al')
+  | None => parLoopS sched fuel p s' al'
+  end.
+Proof.
+  cbn [parLoopS]. destruct (Heap.cnt (heap s) <=? 0); [reflexivity|].
+  destruct (Heap.takeMinBlock (heap s)) as [block w]. unfold run_block_acc. rewrite rfold_app.
+  destruct (rfold _ (lhs_part _ block) _); reflexivity.
+Qed.
+
+Theorem rest_part_no_lhs sched s block n : fair sched ->
+  n ∈ sched s (rest_part s block) -> isLhsNode s n = false /\ n ∈ block.
+Proof.
+  intros F Hn. rewrite (F s (rest_part s block)) in Hn. unfold rest_part in Hn.
+  apply elem_of_list_filter in Hn. exact Hn.
+Qed.
+
+Lemma sw_sched_fair : fair sw_sched.
+Proof. intros s b. unfold sw_sched. case_bool_decide as E; [rewrite E; apply perm_swap|reflexivity]. Qed.
+
+Lemma rev_sched_fair : fair rev_sched.
+Proof. intros s b. unfold rev_sched. apply reverse_Permutation. Qed.
+
+Lemma queue_order_fair : fair queue_order.
+Proof. intros s b. reflexivity. Qed.
+
+Lemma sets_okb_sound p s B : sets_okb p s B = true -> sets_ok p s B.
+Proof.
+  unfold sets_okb. rewrite !andb_true_iff. intros [[H1 H2] H3]. rewrite forallb_forall in H2, H3.
+  constructor.
+  - lia.
+  - intros n a Hn Ha. apply elem_of_list_In, H2 in Hn. apply andb_true_iff in Hn as [Hn _].
+    rewrite forallb_forall in Hn. apply elem_of_list_In, Hn in Ha. destruct (is_fault a); [discriminate|reflexivity].
+  - intros n v Hn Hv. apply elem_of_list_In, H2 in Hn. apply andb_true_iff in Hn as [_ Hn].
+    rewrite forallb_forall in Hn. apply Hn, elem_of_list_In, Hv.
+  - intros n m v Hn Hm Hne Hvn Hvm. apply elem_of_list_In, H3 in Hn. rewrite forallb_forall in Hn.
+    apply elem_of_list_In, Hn in Hm. apply orb_true_iff in Hm as [Hm|Hm].
+    + apply bool_decide_eq_true in Hm. contradiction.
+    + rewrite forallb_forall in Hm. apply elem_of_list_In, Hm in Hvn.
+      apply negb_true_iff, bool_decide_eq_false in Hvn. contradiction.
+Qed.
